@@ -124,6 +124,13 @@ HANDSHAKE = T(
     [{"name": "M", "out_deps": {"o0": [], "o2": ["i1"]}},
      {"name": "S", "out_deps": {"o1": ["i0"]}}],
     [("M", "S"), ("S", "M", ["dfix"]), ("M", "S")])
+# producers whose initial data is generated (statefully) whenever connector.data_required says so
+REQUIRED_IDIOM = {
+    "ab_required": T([{"name": "A", "required_idiom": True}, "B"], [("A", "B")]),
+    "fan_out_required": T([{"name": "A", "required_idiom": True}, "B", "C"],
+                          [("A", "B", [], {"out": "o"}), ("A", "C", ["scale"], {"out": "o"})]),
+    "abc_required": T(["A", {"name": "B", "required_idiom": True}, "C"], [("A", "B"), ("B", "C")]),
+}
 DOUBLE_LINK = T(["A", "B"], [("A", "B"), ("A", "B", ["scale"])])
 
 # delay adapter on the SOURCE side of a push-based time adapter (known finding, DESIGN.md section 9)
